@@ -12,7 +12,7 @@ Output: Rust source (one `zoo_case!` per shape: tuples of arity 1..26, nested tu
 
 A shape table is a list of nodes {"t": leaf|tuple|named|tstruct, "kind", "res", "kids"} (1-based
 child indices, node 1 = root), exactly as in spec/SysData.tla."""
-import argparse, hashlib, json, random, re, sys
+import argparse, hashlib, json, os, random, re, sys
 
 RES_KINDS = ["Read", "Write", "ReadExpect", "WriteExpect", "OptRead", "OptWrite"]
 NO_KINDS = ["Unit", "Phantom"]
@@ -89,6 +89,13 @@ def rot_shape(n, rot, style="tuple"):
     """arity n, member i = kind number (i + rot) mod 8 on resource i: every kind reaches every position
     of every arity, all resources distinct (so a dropped member is visible in every list)"""
     return compose(style, [leaf(ALL_KINDS[(i + rot) % 8], i + 1) for i in range(n)])
+
+
+def all_shape(n, which, phase=0):
+    """arity n over n distinct resources, every member contributing to one list: a member dropped at ANY
+    position of the n-tuple expansion changes reads() (which = "R"), writes() ("W") or setup ("D")"""
+    kinds = {"R": ["Read", "ReadExpect", "OptRead"], "W": ["Write", "WriteExpect", "OptWrite"], "D": ["Read", "Write"]}[which]
+    return compose("tuple", [leaf(kinds[(i + phase) % len(kinds)], i + 1) for i in range(n)])
 
 
 def rand_leaf(rng, nres, kinds=ALL_KINDS):
@@ -326,7 +333,17 @@ def select_mc(groups, n, rng):
 
 
 # ------------------------------------------------------------------ main
-def generate(mc_files, arity_files, seed, n_mc, n_arity, n_rot, n_deep, n_wide, out_rs, out_desc, extra_mc=2, extra_gen=6):
+UNIT_BINS = ["zoo"] + ["zoo%d" % i for i in range(1, 8)]
+
+
+def unit_rs(out_dir, bin_name):
+    return "%s/%s_cases.rs" % (out_dir, bin_name)
+
+
+def generate(mc_files, arity_files, seed, n_mc, n_arity, n_rot, n_deep, n_wide, out_dir, desc_dir, units=1,
+             extra_mc=2, extra_gen=6):
+    """-> (stats, [unit...]); unit = {"bin", "rs", "desc", "types", "hash"}.  The cases are dealt
+    round-robin to `units` compilation units (bins zoo, zoo1, ..); unused units get the placeholder."""
     rng = random.Random(seed)
     cases = []
 
@@ -365,6 +382,10 @@ def generate(mc_files, arity_files, seed, n_mc, n_arity, n_rot, n_deep, n_wide, 
             first.setdefault(n, (n, r))
         rest = [x for x in rots if x not in first.values()]
         rots = (list(first.values()) + rest)[:max(n_rot, 0)]
+    # always: every arity with every member reading / writing / default-providing a resource of its own
+    for n in range(1, 27):
+        for which in "RWD":
+            add("gen-all", all_shape(n, which, rng.randint(0, 2)), n, [], extra_gen)
     for n, r in rots:
         add("gen-rot", rot_shape(n, r, rng.choice(["tuple", "tuple", "named", "tstruct"])), n, [], extra_gen)
     for _ in range(n_deep):
@@ -374,33 +395,51 @@ def generate(mc_files, arity_files, seed, n_mc, n_arity, n_rot, n_deep, n_wide, 
         tb = wide_shape(rng)
         add("gen-wide", tb, nres_of(tb), [], extra_gen)
 
-    desc = {"hash": "", "cases": [{k: c[k] for k in ("id", "origin", "ty", "shape", "nres", "conc", "runs", "extra")} for c in cases]}
-    body = json.dumps(desc["cases"], sort_keys=True)
-    h = hashlib.sha1(body.encode()).hexdigest()[:16]
-    desc["hash"] = h
-    with open(out_desc, "w") as f:
-        json.dump(desc, f)
-    with open(out_rs, "w") as f:
-        f.write("// GENERATED by harness/gen/zoo.py - build artefact, do not edit\n")
-        f.write("pub const GEN_HASH: &str = \"%s\";\n" % h)
-        for c in cases:
-            for d in c["defs"]:
-                f.write(d + "\n")
-            f.write("shredh::zoo_case!(c%d, %d, 'a, %s);\n" % (c["id"], c["id"], c["ty"]))
-        f.write("pub static CASES: &[&shredh::zoo::Ops] = &[\n")
-        for c in cases:
-            f.write("    &c%d::OPS,\n" % c["id"])
-        f.write("];\n")
+    units = max(1, min(units, len(UNIT_BINS)))
+    out_units = []
+    for u, bin_name in enumerate(UNIT_BINS):
+        mine = cases[u::units] if u < units else []
+        rs = unit_rs(out_dir, bin_name)
+        if not mine:
+            placeholder(rs)
+            continue
+        dcases = [{k: c[k] for k in ("id", "origin", "ty", "shape", "nres", "conc", "runs", "extra")} for c in mine]
+        h = hashlib.sha1(json.dumps(dcases, sort_keys=True).encode()).hexdigest()[:16]
+        dpath = "%s/desc_%s.json" % (desc_dir, bin_name)
+        with open(dpath, "w") as f:
+            json.dump({"hash": h, "cases": dcases}, f)
+        tmp = rs + ".tmp"
+        with open(tmp, "w") as f:
+            f.write("// GENERATED by harness/gen/zoo.py - build artefact, do not edit\n")
+            f.write("pub const GEN_HASH: &str = \"%s\";\n" % h)
+            for c in mine:
+                for d in c["defs"]:
+                    f.write(d + "\n")
+                f.write("shredh::zoo_case!(c%d, %d, 'a, %s);\n" % (c["id"], c["id"], c["ty"]))
+            f.write("pub static CASES: &[&shredh::zoo::Ops] = &[\n")
+            for c in mine:
+                f.write("    &c%d::OPS,\n" % c["id"])
+            f.write("];\n")
+        os.replace(tmp, rs)
+        out_units.append({"bin": bin_name, "rs": rs, "desc": dpath, "types": len(mine), "hash": h})
     by_origin = {}
     for c in cases:
         by_origin[c["origin"]] = by_origin.get(c["origin"], 0) + 1
-    stats = {"hash": h, "types": len(cases), "by_origin": by_origin, "emitted": n_emitted,
+    arities = sorted({len(x["kids"]) for c in cases for x in c["shape"] if x["t"] != "leaf"})
+    stats = {"types": len(cases), "units": len(out_units), "by_origin": by_origin, "emitted": n_emitted,
              "derived_structs": sum(len(c["defs"]) for c in cases),
              "structs_without_lifetime_turned_into_tuples": sum(c["normalised"] for c in cases),
-             "max_arity": max([len(x["kids"]) for c in cases for x in c["shape"]] + [0]),
+             "arities_present": arities,
+             "arity_positions_covered": len({arity_np(c["shape"]) for c in cases if c["origin"] == "mc-arity"}),
              "max_depth": max([depth(c["shape"]) for c in cases] + [0]),
-             "samples": [{"ty": c["ty"], "defs": c["defs"], "origin": c["origin"]} for c in cases[:1] + cases[-1:]]}
-    return stats
+             "samples": [{"ty": c["ty"], "defs": c["defs"], "origin": c["origin"]}
+                         for c in (cases[:1] + [c for c in cases if c["defs"]][-1:])]}
+    return stats, out_units
+
+
+def placeholders(out_dir):
+    for b in UNIT_BINS:
+        placeholder(unit_rs(out_dir, b))
 
 
 def placeholder(out_rs):
@@ -420,15 +459,16 @@ def main():
     ap.add_argument("--n-rot", type=int, default=26)
     ap.add_argument("--n-deep", type=int, default=50)
     ap.add_argument("--n-wide", type=int, default=50)
-    ap.add_argument("--out-rs", required=True)
-    ap.add_argument("--out-desc")
+    ap.add_argument("--units", type=int, default=1)
+    ap.add_argument("--out-dir", required=True, help="harness/gen-out")
+    ap.add_argument("--desc-dir")
     ap.add_argument("--placeholder", action="store_true")
     a = ap.parse_args()
     if a.placeholder:
-        placeholder(a.out_rs)
+        placeholders(a.out_dir)
         return
-    st = generate(a.mc, a.arity, a.seed, a.n_mc, a.n_arity, a.n_rot, a.n_deep, a.n_wide, a.out_rs, a.out_desc)
-    print(json.dumps(st))
+    st, units = generate(a.mc, a.arity, a.seed, a.n_mc, a.n_arity, a.n_rot, a.n_deep, a.n_wide, a.out_dir, a.desc_dir, a.units)
+    print(json.dumps({"stats": st, "units": units}))
 
 
 if __name__ == "__main__":
